@@ -165,6 +165,9 @@ def execute(prop_mod, seed, tier='quick', replay=None, index=None, keep_events=F
                 signal.signal(signal.SIGALRM, old)
         ctx.cleanup()
     fp = hashlib.blake2b(repr(ctx.fingerprint_parts).encode(), digest_size=10).hexdigest()
+    # everything observable about the run goes into the event-log digest: two executions of one tape must agree on it
+    ctx.log.ev('final', fp, sorted(ctx.counters.items()), sorted(ctx.faults.items()), sorted(ctx.reach.items()),
+               sorted(ctx.post.items()), ctx.steps, status, vclass, detail if status != 'harness_error' else '', ctx.tape.ndraws)
     return Result(index=index, seed=seed, status=status, vclass=vclass, detail=detail, fingerprint=fp,
                   nontrivial=ctx.nontrivial, counters=ctx.counters, faults=ctx.faults, reach=ctx.reach,
                   post=ctx.post, steps=ctx.steps, digest=ctx.log.hexdigest(), scenario=ctx.scenario,
